@@ -14,14 +14,18 @@ from opytimizer.spaces.search import SearchSpace  # noqa: E402
 from opytimizer.spaces.tree import TreeSpace  # noqa: E402
 
 
-def build(cls, mod, hp, n_agents, n_vars, n_iter):
+def build(cls, mod, hp, n_agents, n_vars, n_iter, kind='search', box=(-5.0, 5.0)):
     m = importlib.import_module('opytimizer.optimizers.' + mod)
     opt = getattr(m, cls)(hyperparams=hp) if hp else getattr(m, cls)()
+    if kind == 'hyper' and cls != 'GP':
+        from opytimizer.spaces.hyper import HyperSpace
+        return opt, HyperSpace(n_agents=n_agents, n_variables=n_vars, n_dimensions=2, n_iterations=n_iter,
+                               lower_bound=[box[0]] * n_vars, upper_bound=[box[1]] * n_vars)
     if cls == 'GP':
         space = TreeSpace(n_trees=n_agents, n_terminals=3, n_variables=n_vars, n_iterations=n_iter, min_depth=1, max_depth=4,
                           functions=['SUM', 'SUB', 'MUL', 'DIV', 'ABS', 'SIN'], lower_bound=[-5.0] * n_vars, upper_bound=[5.0] * n_vars)
     else:
-        space = SearchSpace(n_agents=n_agents, n_variables=n_vars, n_iterations=n_iter, lower_bound=[-5.0] * n_vars, upper_bound=[5.0] * n_vars)
+        space = SearchSpace(n_agents=n_agents, n_variables=n_vars, n_iterations=n_iter, lower_bound=[box[0]] * n_vars, upper_bound=[box[1]] * n_vars)
     return opt, space
 
 
@@ -29,11 +33,29 @@ def obj(x):
     return float(np.sum(x ** 2) + 0.1 * np.sum(np.sin(3 * x)))
 
 
-def run(cls, mod, hp, n_agents, n_vars, n_iter, seed):
+def obj_hyper(x):
+    # candidates of a hypercomplex space: every component counts (the optimum pulls components out of [0, 1])
+    return float(np.sum((x - 1.3) ** 2))
+
+
+def obj_singular(x):
+    # csendes-like: x^6 (2 + sin(1/x)); at a coordinate clipped to exactly 0 this is 0 * (2 + sin(inf)) = NaN, silently
+    return float(np.sum(x ** 6 * (2 + np.sin(1 / x))))
+
+
+def obj_const(x):
+    return 1.0
+
+
+OBJ = {'plain': obj, 'hyper': obj_hyper, 'singular': obj_singular, 'const': obj_const}
+
+
+def run(cls, mod, hp, n_agents, n_vars, n_iter, seed, kind='search', box=(-5.0, 5.0), objective='plain'):
     np.random.seed(seed)
-    opt, space = build(cls, mod, hp, n_agents, n_vars, n_iter)
-    h = Opytimizer(space=space, optimizer=opt, function=Function(pointer=obj)).start()
-    d = {k: v for k, v in h.__dict__.items() if k not in ('time', 'best_tree')}
+    opt, space = build(cls, mod, hp, n_agents, n_vars, n_iter, kind, tuple(box))
+    h = Opytimizer(space=space, optimizer=opt, function=Function(pointer=OBJ[objective])).start()
+    # every public data attribute, whether it lives on the instance or on the class
+    d = {k: getattr(h, k) for k in sorted(set(dir(h))) if not k.startswith('_') and not callable(getattr(h, k)) and k not in ('time', 'best_tree')}
     blob = json.dumps(d, default=lambda o: o.tolist() if hasattr(o, 'tolist') else repr(type(o)), sort_keys=True)
     blob += json.dumps([[a.position.tolist(), float(a.fit)] for a in space.agents] + [space.best_agent.position.tolist(), float(space.best_agent.fit)])
     if cls == 'GP':
@@ -45,11 +67,13 @@ def main():
     p = json.loads(sys.argv[1])
     for w in p.get('prior', []):
         try:
-            run(w['cls'], w['mod'], w.get('hp'), w.get('n_agents', 3), w.get('n_vars', 2), w.get('n_iter', 2), w.get('seed', 99))
+            run(w['cls'], w['mod'], w.get('hp'), w.get('n_agents', 3), w.get('n_vars', 2), w.get('n_iter', 2), w.get('seed', 99),
+                w.get('kind', 'search'), w.get('box', (-5.0, 5.0)), w.get('objective', 'plain'))
         except Exception:  # noqa: BLE001
             pass
     try:
-        dg = run(p['cls'], p['mod'], p.get('hp'), p['n_agents'], p['n_vars'], p['n_iter'], p['seed'])
+        dg = run(p['cls'], p['mod'], p.get('hp'), p['n_agents'], p['n_vars'], p['n_iter'], p['seed'],
+                 p.get('kind', 'search'), p.get('box', (-5.0, 5.0)), p.get('objective', 'plain'))
     except Exception as ex:  # noqa: BLE001
         dg = 'EXC:' + type(ex).__name__
     hlib.emit({'digest': dg})
